@@ -257,6 +257,53 @@ fn tally(st: &mut Stats, sc: &Scenario, res: &exec::RunResult, j: &Judged) {
         "atomic_global_access_in_base",
         sc.base.funcs.iter().any(|f| f.body.iter().any(|i| matches!(i, ins::Ins::GlobalAtomic(..)))),
     );
+    hit("try_table_in_base", sc.base.funcs.iter().any(|f| f.body.iter().any(|i| matches!(i, ins::Ins::TryTable(..)))));
+    hit("typed_element_segment_in_base", sc.base.elems.iter().any(|e| e.ty.is_some()));
+    hit("table_initialiser_in_base", sc.base.tables.iter().any(|t| t.init.is_some()));
+    hit("pull_side_effects_before_encode", {
+        let p = sc.tail.iter().position(|t| matches!(t, exec::Tail::PullSideEffects));
+        let e = sc.tail.iter().rposition(|t| matches!(t, exec::Tail::Encode | exec::Tail::EmitOk));
+        matches!((p, e), (Some(p), Some(e)) if p < e)
+    });
+    {
+        let flat = sc.flat_ops();
+        let sites: Vec<&model::Site> = flat.iter().filter_map(|(_, o)| if let model::Op::Inject { sites, .. } = o { Some(sites.iter()) } else { None }).flatten().collect();
+        hit("clear_instr_at_call", sites.iter().any(|s| s.clear));
+        hit("function_level_probe", sites.iter().any(|s| matches!(s.mode, model::Mode::FuncEntry | model::Mode::FuncExit)));
+        hit("export_name_reused_after_delete", {
+            let mut deleted_seen = false;
+            let mut r = false;
+            for (_, o) in &flat {
+                match o {
+                    model::Op::DeleteExport { .. } => deleted_seen = true,
+                    model::Op::AddExportFunc { name, .. } | model::Op::AddExportMem { name, .. } => {
+                        r |= deleted_seen && !(name.starts_with("xf") || name.starts_with("xm"));
+                    }
+                    _ => {}
+                }
+            }
+            r
+        });
+        hit("naming_through_lower_level_call", flat.iter().any(|(_, o)| matches!(o, model::Op::SetFnName { via, .. } if *via != 0)));
+        hit("import_replaced", flat.iter().any(|(_, o)| matches!(o, model::Op::ReplaceImport { .. })));
+    }
+    if let Some(c) = &sc.comp {
+        hit("component_far_location_site", !c.far.is_empty());
+        hit("component_pre_op", !c.pre.is_empty());
+        hit("component_iterator_add_local_or_global", !c.extras.is_empty());
+        hit("component_custom_sections_in_3_or_more_runs", {
+            let mut runs = 0;
+            let mut in_run = false;
+            for p in &c.layout {
+                let is_c = matches!(p, c26::Piece::Custom(_));
+                if is_c && !in_run {
+                    runs += 1;
+                }
+                in_run = is_c;
+            }
+            runs >= 3
+        });
+    }
     hit("special_mode_injected", m.funcs.iter().any(|f| matches!(&f.kind, model::MFK::Local(l) if l.has_special())));
     hit("encode_panicked", oracle::panic_of(res).is_some());
     hit("output_produced", oracle::first_bytes(res).is_some());
